@@ -918,8 +918,9 @@ type PacketSource struct {
 // NewZeroCopyPacketSource creates a zero copy packet data source.
 func NewZeroCopyPacketSource(source ZeroCopyPacketDataSource, decoder Decoder, opts ...PacketSourceOption) *PacketSource {
 	ps := &PacketSource{
-		source:  source.ZeroCopyReadPacketData,
-		decoder: decoder,
+		zeroCopy: true,
+		source:   source.ZeroCopyReadPacketData,
+		decoder:  decoder,
 	}
 
 	for idx := range opts {
